@@ -157,7 +157,8 @@ def build(variants=('prod', 'san'), verbose=False):
             'gcc-O0': ('gcc', ['-O0'], {}), 'gcc-O2': ('gcc', ['-O2'], {}), 'gcc-O3': ('gcc', ['-O3'], {}),
             'clang-O0': ('clang', ['-O0'], {}), 'clang-O2': ('clang', ['-O2'], {}), 'clang-O3': ('clang', ['-O3'], {}),
             'nobzero': ('gcc', ['-O3', '-DVERIF_NO_BZERO'], {}),
-            'ndebug': ('gcc', ['-O2', '-DNDEBUG'], {}),   # what CMake's RelWithDebInfo / MinSizeRel define
+            'ndebug': ('gcc', ['-O2', '-DNDEBUG'], {}),
+            'gcc-Os': ('gcc', ['-Os'], {}), 'clang-Os': ('clang', ['-Os'], {}),   # size-optimised builds (MinSizeRel, Arduino-style toolchains)   # what CMake's RelWithDebInfo / MinSizeRel define
             'tsan': ('clang', ['-O1', '-g', '-fsanitize=thread'], {'TSAN_OPTIONS': 'halt_on_error=1:exitcode=66'}),
         }
         for v in variants:
